@@ -8,5 +8,6 @@ d="$rd/$pid/OUT/$x"
 echo "=== $pid/$x"
 "$here/tools/confirm_seed.sh" "$rd/$pid" "$d" 2>&1 | tee "$d/confirm.txt"
 "$here/tools/try_seed.sh" "$d/patch.diff" quick "$pid" "$@" 2>&1 | tee "$d/try.txt"
-[ -f /tmp/verif-seed-work/last-replay-$pid.json ] && cp /tmp/verif-seed-work/last-replay-$pid.json "$d/found-replay.json"
-rm -f /tmp/verif-seed-work/last-replay-*.json
+w="${VERIF_SEED_WORK:-/tmp/verif-seed-work}"
+[ -f "$w/last-replay-$pid.json" ] && cp "$w/last-replay-$pid.json" "$d/found-replay.json"
+rm -f "$w"/last-replay-*.json
